@@ -241,6 +241,10 @@ func c01(r *core.Run) {
 				n5++
 				r.Analysed(core.FnName(f))
 				kp := p.ProvAt(mu.Key, "", mu)
+				if kp.Any(func(a core.Atom) bool { return a.Kind == "param" && a.Fn == f }) && f != fn {
+					// the credit is made by a helper (tally.credit(prover, size)): the key is what its callers hand in
+					kp = p.ResolveToEntry(kp, fn)
+				}
 				atoms := kp.DataAtoms()
 				ok1 := len(atoms) == 1 && atoms[0].Kind == "store" && atoms[0].Name == stProof && atoms[0].Path == ".Prover"
 				detail := "credited key ⊵ Store(FileProof).Prover only"
